@@ -257,6 +257,8 @@ def run(tier, seed):
     chk.encode(EquationSolver.ParseString, EquationSolver.ExtractVariableList, EquationSolver.SetInitialConditions, EquationSolver.SolveStep,
                EquationSolver._SolveStep, EquationSolver.SolveEquation, sfc_models.utils.Logger.__init__, sfc_models.utils.Logger.cleanup,
                sfc_models.models.EconomicObject.__init__, sfc_models.models.Model.main)
+    from vf import selfcheck
+    selfcheck.run(chk)      # differential validation of the E2 value classes (trusted base) against plain floats
     hs = histories(tier)
     chk.bounds = {'histories': '%d (history, target block) pairs: sequences of <= 3 distinct operations from %r around the target solve' % (len(hs), [o for o in OPS if o != 'target-first']),
                   'target': TARGET.replace('\n', ' ; '), 'numeric domain': 'exogenous G(1), G(2) and x(0) symbolic reals in [-50, 50]; 2 periods',
